@@ -19,6 +19,14 @@
 //	auth=<0..5>                    ClientAuth (iota order of ClientAuthType)
 //	scas=none|root|other           server ClientCAs
 //
+//	hist=<step>;<step>;..          (optional) a HISTORY: after the connection described by the tokens
+//	                               above, one more connection per step between the same two parties
+//	                               (same key pairs, policy, names, one shared client session cache, one
+//	                               shared server session cache). A step is `same` or `+`-joined overrides
+//	                               of the first connection's settings: cs:<suites> calpn:<protos> ccl:<0|1>
+//	                               ss:<suites> salpn:<protos> sca:<0|1> scl:<0|1>. Without `hist`, a second
+//	                               handshake with the same objects is run when either side has a cache.
+//
 // observed: `h1=<client>|<server>|<echo> [h2=...]` where an end is
 // `ok:<vers>:<suite>:<alpn|->:<resumed>:<peer certs as S/E/? symbols|->:<server name|->` or `fail`,
 // echo is ok|bad|-; `timeout` replaces an end that had to be aborted by the watchdog.
@@ -216,6 +224,52 @@ func parseCase(desc string) (stack string, cc cliCfg, sc srvCfg) {
 	return
 }
 
+// histStep is one connection of a history: the full abstract configurations in use and the
+// keys under which the real Config objects are shared between steps.
+type histStep struct {
+	cc         cliCfg
+	sc         srvCfg
+	ckey, skey string
+}
+
+func parseHist(cc cliCfg, sc srvCfg, hist string) []histStep {
+	mk := func(c cliCfg, s srvCfg) histStep {
+		return histStep{cc: c, sc: s,
+			ckey: fmt.Sprintf("%v|%v|%v", c.suitesNil, c.suites, c.alpn),
+			skey: fmt.Sprintf("%v|%v|%v|%v", s.suitesNil, s.suites, s.alpn, s.cache)}
+	}
+	steps := []histStep{mk(cc, sc)}
+	for _, st := range strings.Split(hist, ";") {
+		c, s := cc, sc
+		if st != "same" {
+			for _, f := range strings.Split(st, "+") {
+				kv := strings.SplitN(f, ":", 2)
+				if len(kv) != 2 {
+					continue
+				}
+				switch kv[0] {
+				case "cs":
+					c.suitesNil, c.suites = parseSuites(kv[1])
+				case "ss":
+					s.suitesNil, s.suites = parseSuites(kv[1])
+				case "calpn":
+					c.alpn = parseList(kv[1])
+				case "salpn":
+					s.alpn = parseList(kv[1])
+				case "ccl":
+					c.clone = kv[1] == "1"
+				case "scl":
+					s.clone = kv[1] == "1"
+				case "sca":
+					s.cache = kv[1] == "1"
+				}
+			}
+		}
+		steps = append(steps, mk(c, s))
+	}
+	return steps
+}
+
 // ---------------------------------------------------------------------------- running
 
 // runBoth runs the two handshakes concurrently. An endpoint whose handshake fails closes its
@@ -369,6 +423,14 @@ func roundsFor(cc cliCfg, sc srvCfg) int {
 func execute(desc string) string {
 	stack, cc, sc := parseCase(desc)
 	var rs []hsResult
+	if hist, ok := hx.KV(desc, "hist"); ok {
+		if stack == "dtlcp" {
+			rs = dtlcpStack{}.runHist(parseHist(cc, sc, hist))
+		} else {
+			rs = tlcpStack{}.runHist(parseHist(cc, sc, hist))
+		}
+		return observe(rs)
+	}
 	if stack == "dtlcp" {
 		rs = dtlcpStack{}.run(cc, sc, roundsFor(cc, sc))
 	} else {
